@@ -54,6 +54,11 @@ UNIT = {
         sfn('set_entry', ensures=[('only_top_changes', 'final(self).contexts@.len() == old(self).contexts@.len() && forall |i: int| 0 <= i < old(self).contexts@.len() - 1 ==> final(self).contexts@[i] == old(self).contexts@[i]')]),
         {'kind': 'fn', 'src': X, 'path': 'impl FeelContext::fn contains_entry', 'key': 'purity::FeelContext::contains_entry',
          'props': P, 'auto_props': A, 'loops': 0, 'body_prefix': PRE},
+        # part of the context API that the bodies under contract do not use today; kept so that a changed body that does still extracts
+        {'kind': 'fn', 'src': X, 'path': 'impl FeelContext::fn len', 'key': 'purity::FeelContext::len', 'props': P, 'auto_props': A, 'loops': 0, 'ret': 'r', 'body_prefix': PRE,
+         'ensures': [('number_of_entries', 'r == self.0@.len()')]},
+        {'kind': 'fn', 'src': X, 'path': 'impl FeelContext::fn is_empty', 'key': 'purity::FeelContext::is_empty', 'props': P, 'auto_props': A, 'loops': 0, 'ret': 'r', 'body_prefix': PRE,
+         'ensures': [('no_entries', 'r == (self.0@.len() == 0)')]},
         {'kind': 'fn', 'src': V, 'path': 'impl Values::fn new', 'key': 'purity::Values::new', 'props': P, 'auto_props': A, 'loops': 0},
         {'kind': 'fn', 'src': V, 'path': 'impl Values::fn as_vec', 'key': 'purity::Values::as_vec', 'props': P, 'auto_props': A, 'loops': 0, 'ret': 'r',
          'ensures': [('view', 'r@ == self.0@')]},
@@ -254,3 +259,11 @@ BOUNDED = {'C01': [{'name': 'function-invocation-arity', 'driver': 'feelcases', 
                     'functions': ['eval_function_positional', 'eval_function_named', 'eval_function_definition (feel-evaluator builders.rs)'],
                     'bound': '29 generated calls: user-defined functions of arity 0..3 called positionally with 0..arity arguments and by name with every non-empty subset of the parameter names (too few / missing arguments give null, '
                              'a complete call gives the value), typed parameters coercing or nulling the argument, and a missing parameter not captured from the caller (bounded duplicate of the Verus contracts)'}]}
+
+_PURE = {'name': 'evaluation-leaves-the-scope-alone', 'driver': 'purity', 'args': ['/verif/replay/cases/C13_purity.txt'],
+         'functions': ['build_context', 'build_filter', 'build_for / build_some / build_every and the iteration evaluators', 'eval_function_positional / named / definition', 'the parser actions that push and pop parsing contexts'],
+         'bound': '54 expressions that push temporary contexts (context literals, filters over lists of contexts incl. items with an `item` entry, for / some / every with 1..2 variables, function invocations positional / named / parameterless / '
+                  'nested / recursive / external, and their combinations) over a scope binding a, b, base, xs, people, f: parsing and evaluating leave the rendering of the scope unchanged, a second evaluation gives the same value, and '
+                  '`a + b + base` is still 19 afterwards (bounded duplicate of the Verus contracts; stands in when a changed body leaves the extractor\'s reach)'}
+BOUNDED['C13'] = BOUNDED.get('C13', []) + [_PURE]
+BOUNDED['C01'] = BOUNDED['C01'] + [_PURE]
